@@ -1647,6 +1647,111 @@ pos("C07", "suback-len-header-length-through-helper", "Len takes the header leng
     ["C07/T3-dirty-discipline/(*message.SubackMessage).Len:header-length-after-remaining-length"])
 
 
+# ---------------------------------------------------------------- rules of seeded round 7
+CA = "message/connack.go"
+pos("C03", "connack-flags-byte-conditional", "the fix of f715f9d undone: the acknowledge-flags byte is written only when session present is set",
+    [(CA, "	if m.sessionPresent {\n		dst[total] = 1\n	} else {\n		dst[total] = 0\n	}\n	total++", "	if m.sessionPresent {\n		dst[total] = 1\n	}\n	total++")],
+    ["C03/B14-encoder-writes-what-it-counts/(*message.ConnackMessage).Encode:advance#1(+1):bytes-written-on-every-path"])
+neg("C03", "neg-connack-flags-byte-through-local", "the flags byte computed in a local and stored once",
+    [(CA, "	if m.sessionPresent {\n		dst[total] = 1\n	} else {\n		dst[total] = 0\n	}\n	total++", "	var ackFlags byte\n	if m.sessionPresent {\n		ackFlags = 1\n	}\n	dst[total] = ackFlags\n	total++")])
+for prop in ("C15", "C16", "C05"):
+    pos(prop, "oversize-write-waits", "the fix of ad3c910 undone: a reservation larger than the ring waits",
+        [(BUF, "	if int64(n) > bf.size {\n		return 0, 0, bufio.ErrBufferFull\n	}\n\n	// The current producer position", "	// The current producer position")],
+        [prop + "/B11-ring-space-accounting/waitForWriteSpace:wait(pcond)#1:waits-only-for-what-fits"])
+for prop in ("C15", "C16", "C19"):
+    pos(prop, "readwait-accepts-up-to-ring-size", "the fix of 3f9cf3b undone: ReadWait accepts a count the pump's block leaves no room for",
+        [(BUF, "	if int64(n) > bf.size-defaultReadBlockSize {\n		return nil, bufio.ErrBufferFull\n	}", "	if int64(n) > bf.size {\n		return nil, bufio.ErrBufferFull\n	}")],
+        [prop + "/B11-ring-space-accounting/ReadWait:wait(ccond)#1:waits-only-for-what-can-arrive"])
+neg("C15", "neg-readwait-limit-in-local", "the limit of ReadWait computed in a local first",
+    [(BUF, "	if int64(n) > bf.size-defaultReadBlockSize {\n		return nil, bufio.ErrBufferFull\n	}", "	limit := bf.size - defaultReadBlockSize\n	if int64(n) > limit {\n		return nil, bufio.ErrBufferFull\n	}")])
+for prop in ("C15", "C16"):
+    pos(prop, "smallest-ring-is-one-block", "the minimum ring size is one read block",
+        [(BUF, "	if size < 2*defaultReadBlockSize {\n		size = 2 * defaultReadBlockSize\n	}", "	if size < defaultReadBlockSize {\n		size = defaultReadBlockSize\n	}")],
+        [prop + "/B10-ring-memory-safety/newBuffer:smallest-ring-holds-a-packet-beside-a-read-block"])
+    pos(prop, "cond-over-rlocker", "the condition variables are created over the read side of an RWMutex",
+        [(BUF, "		pcond: sync.NewCond(new(sync.Mutex)),\n		ccond: sync.NewCond(new(sync.Mutex)),", "		pcond: sync.NewCond(new(sync.RWMutex).RLocker()),\n		ccond: sync.NewCond(new(sync.RWMutex).RLocker()),")],
+        [prop + "/L2-wait-shape/service.newBuffer:NewCond#1:lock-is-exclusive", prop + "/L2-wait-shape/service.newBuffer:NewCond#2:lock-is-exclusive"])
+pos("C05", "default-ring-128k", "the default ring is smaller than the largest will",
+    [(BUF, "	defaultBufferSize     = 1024 * 256", "	defaultBufferSize     = 1024 * 128")],
+    ["C05/T14-default-ring-size/newBuffer:default-size-holds-the-largest-will"])
+for prop in ("C03",):
+    pos(prop, "lp-string-bound-maxint16", "length-prefixed fields are limited to 32767 bytes",
+        [(MSG, "	maxLPString          uint16 = 65535", "	maxLPString          uint16 = 32767")],
+        [prop + "/B13-length-prefix-accepts-every-length/writeLPBytes:return#1:refuses-nothing-the-prefix-can-hold"])
+pos("C04", "valid-topic-refuses-dollar", "ValidTopic refuses names that start with '$'",
+    [(MSG, "	return len(topic) > 0 && bytes.IndexByte(topic, '#') == -1 && bytes.IndexByte(topic, '+') == -1", "	return len(topic) > 0 && topic[0] != '$' && bytes.IndexByte(topic, '#') == -1 && bytes.IndexByte(topic, '+') == -1")],
+    ["C04/T13-topic-name-predicate/ValidTopic:tests-only-emptiness-and-wildcards"])
+neg("C04", "neg-valid-topic-as-loop", "ValidTopic written as a loop over the bytes",
+    [(MSG, "	return len(topic) > 0 && bytes.IndexByte(topic, '#') == -1 && bytes.IndexByte(topic, '+') == -1", "	if len(topic) == 0 {\n		return false\n	}\n	for _, b := range topic {\n		if b == '#' || b == '+' {\n			return false\n		}\n	}\n	return !bytes.ContainsAny(topic, \"#+\")")])
+for prop in ("C02", "C04"):
+    pos(prop, "dup-refused-with-wrong-mask", "a DUP check with the QoS mask 0x2 refuses retransmitted QoS 2 publishes",
+        [(HDR, "	total++\n\n	remlen, m := binary.Uvarint(src[total:])", "	if h.Type() == PUBLISH && h.Flags()&0x8 != 0 && h.Flags()&0x2 == 0 {\n		return total, fmt.Errorf(\"header/Decode: DUP flag set for QoS 0 PUBLISH message\")\n	}\n\n	total++\n\n	remlen, m := binary.Uvarint(src[total:])")],
+        [prop + "/T15-header-byte-refusals/header.decode:first-byte-test@5:refuses-only-malformed-bytes"])
+neg("C04", "neg-dup-refused-at-qos0", "a DUP check with the right mask refuses only DUP at QoS 0 [MQTT-3.3.1-2]",
+    [(HDR, "	total++\n\n	remlen, m := binary.Uvarint(src[total:])", "	if h.Type() == PUBLISH && h.Flags()&0x8 != 0 && h.Flags()&0x6 == 0 {\n		return total, fmt.Errorf(\"header/Decode: DUP flag set for QoS 0 PUBLISH message\")\n	}\n\n	total++\n\n	remlen, m := binary.Uvarint(src[total:])")])
+pos("C10", "sessions-manager-for-default-provider", "the session manager is created for the default provider, not the configured one",
+    [(SRV, "		svr.sessMgr, err = sessions.NewManager(svr.SessionsProvider)", "		svr.sessMgr, err = sessions.NewManager(\"mem\")")],
+    ["C10/T16-provider-wiring/(*service.Server).checkConfiguration:sessions.NewManager:configured-provider"])
+neg("C10", "neg-sessions-provider-through-local", "the provider name defaulted in a local",
+    [(SRV, "		if svr.SessionsProvider == \"\" {\n			svr.SessionsProvider = \"mem\"\n		}\n		svr.sessMgr, err = sessions.NewManager(svr.SessionsProvider)", "		spName := svr.SessionsProvider\n		if spName == \"\" {\n			spName = \"mem\"\n		}\n		svr.sessMgr, err = sessions.NewManager(spName)")])
+for prop in ("C07", "C10"):
+    pos(prop, "topics-memoised-not-reset-by-remove", "Session.Topics keeps its result; RemoveTopic does not reset it",
+        [(SESS, "	// Initialized?\n	initted bool", "	tlist []string\n	qlist []byte\n\n	// Initialized?\n	initted bool"),
+         (SESS, "	s.topics[topic] = qos\n\n	return nil\n}", "	s.topics[topic] = qos\n	s.tlist, s.qlist = nil, nil\n\n	return nil\n}"),
+         (SESS, "	var (\n		topics []string\n		qoss   []byte\n	)", "	if s.tlist != nil {\n		return s.tlist, s.qlist, nil\n	}\n\n	var (\n		topics []string\n		qoss   []byte\n	)"),
+         (SESS, "	return topics, qoss, nil\n}", "	s.tlist, s.qlist = topics, qoss\n\n	return topics, qoss, nil\n}")],
+        [prop + "/T17-memoised-views/Session.tlist:reset-by-every-update-of(qlist,topics)"])
+for prop in ("C13", "C14"):
+    pass
+pos("C13", "ackdone-starts-from-package-slice", "every queue's result list starts as the same package-level slice",
+    [(AQ, "		ackdone: make([]AckMsg, 0),", "		ackdone: noneAcked,"),
+     (AQ, "	errAckMessage  error = errors.New(\"Invalid message for acking\")\n", "	errAckMessage  error = errors.New(\"Invalid message for acking\")\n\n	noneAcked = make([]AckMsg, 0, defaultQueueSize)\n")],
+    ["C13/G9-no-shared-backing/library-structs:slice-and-map-fields-own-their-backing"])
+pos("C12", "scratch-allocated-once", "the writer's scratch buffer is allocated only when it is nil",
+    [(SR, "		if len(svc.outtmp) < l {", "		if svc.outtmp == nil {")],
+    ["C12/B10-ring-memory-safety/writeMessage:scratch-holds-the-message"])
+neg("C12", "neg-scratch-grown-by-cap", "the scratch is re-sliced when its capacity suffices",
+    [(SR, "		if len(svc.outtmp) < l {\n			svc.outtmp = make([]byte, l)\n		}", "		if len(svc.outtmp) < l {\n			svc.outtmp = make([]byte, l, 2*l)\n		}")])
+for prop in ("C09", "C16"):
+    pos(prop, "stores-closed-before-connections", "Server.Close closes the stores before it stops the connections",
+        [(SRV, "	for _, svc := range svcs {\n		log.Tracef(\"Stopping service: %d\", svc.id)\n		svc.stop()\n	}\n\n	if svr.sessMgr != nil {\n		svr.sessMgr.Close()\n	}\n\n	if svr.topicsMgr != nil {\n		svr.topicsMgr.Close()\n	}\n", "	if svr.sessMgr != nil {\n		svr.sessMgr.Close()\n	}\n\n	if svr.topicsMgr != nil {\n		svr.topicsMgr.Close()\n	}\n\n	for _, svc := range svcs {\n		log.Tracef(\"Stopping service: %d\", svc.id)\n		svc.stop()\n	}\n")],
+        [prop + "/P5-order/Server.Close:stores-closed-after-connections-stopped"])
+pos("C11", "session-init-passes-on-settopic-error", "Session.Init returns the error of the will's SetTopic",
+    [(SESS, "		s.Will.SetTopic(s.Cmsg.WillTopic())\n		s.Will.SetPayload(s.Cmsg.WillMessage())\n		s.Will.SetRetain(s.Cmsg.WillRetain())\n	}\n\n	s.topics = make(map[string]byte, 1)", "		if err := s.Will.SetTopic(s.Cmsg.WillTopic()); err != nil {\n			return err\n		}\n		s.Will.SetPayload(s.Cmsg.WillMessage())\n		s.Will.SetRetain(s.Cmsg.WillRetain())\n	}\n\n	s.topics = make(map[string]byte, 1)")],
+    ["C11/P11-effect-dominance/Session.Init:fails-only-on-its-own-state"])
+pos("C17", "ping-written-straight-to-the-socket", "ping writes its PINGREQ with the handshake's socket writer",
+    [(SVC, "	msg := message.NewPingreqMessage()\n\n	_, err := svc.writeMessage(msg)\n	if err != nil {", "	msg := message.NewPingreqMessage()\n\n	if err := writeMessage(svc.conn, msg); err != nil {")],
+    ["C17/P9-who-may/socket-writer:called-only-by-the-handshake"])
+for prop in ("C19", "C16"):
+    pos(prop, "closed-partial-reports-insufficient-data", "ReadWait on a closed ring with a partial packet reports 'insufficient data'",
+        [(BUF, "	for ppos = bf.pseq.get(); next > ppos; ppos = bf.pseq.get() {\n		if bf.isDone() {\n			bf.ccond.L.Unlock()\n			return nil, io.EOF", "	for ppos = bf.pseq.get(); next > ppos; ppos = bf.pseq.get() {\n		if bf.isDone() {\n			bf.ccond.L.Unlock()\n			if ppos > cpos {\n				return nil, ErrBufferInsufficientData\n			}\n			return nil, io.EOF")],
+        [prop + "/L2-wait-shape/(*service.buffer).ReadWait:wait(ccond):closed-flag-exit-reports-end-of-stream"])
+pos("C20", "connack-code-5-invalid", "ConnackCode.Valid excludes 'not authorized'",
+    [("message/connackcode.go", "	return cc <= 5", "	return cc < ErrNotAuthorized")],
+    ["C20/T1-type-tables/ConnackCode.Valid:range"])
+for prop in ("C01", "C03"):
+    pos(prop, "unsubscribe-loop-ends-at-remlen", "the UNSUBSCRIBE decode loop compares its cursor with the remaining length alone",
+        [("message/unsubscribe.go", "	remlen := int(m.remlen) - (total - hn)\n	for remlen > 0 {", "	end := int(m.remlen)\n	for total < end {"),
+         ("message/unsubscribe.go", "		m.topics = append(m.topics, t)\n		remlen = remlen - n\n	}", "		m.topics = append(m.topics, t)\n	}")],
+        [prop + "/B3-cursor-conservation/(*message.UnsubscribeMessage).Decode:loop:runs-to-the-end-of-the-packet"])
+neg("C03", "neg-unsubscribe-loop-ends-at-packet-end", "the UNSUBSCRIBE decode loop runs to fixed header + remaining length",
+    [("message/unsubscribe.go", "	remlen := int(m.remlen) - (total - hn)\n	for remlen > 0 {", "	end := hn + int(m.remlen)\n	for total < end {"),
+     ("message/unsubscribe.go", "		m.topics = append(m.topics, t)\n		remlen = remlen - n\n	}", "		m.topics = append(m.topics, t)\n	}")])
+pos("C13", "grow-doubles-size-before-copy", "grow doubles size and mask before it copies the old ring",
+    [(AQ, "	newsize := aq.size << 1\n	newmask := newsize - 1\n	newring := make([]AckMsg, newsize)", "	aq.size <<= 1\n	aq.mask = aq.size - 1\n	newring := make([]AckMsg, aq.size)"),
+     (AQ, "	aq.size = newsize\n	aq.mask = newmask\n	aq.ring = newring", "	aq.ring = newring")],
+    ["C13/T5-co-update/grow:unrolls-oldest-first"])
+pos("C10", "clean-connect-keeps-stored-session", "getSession looks the session up before it asks for CleanSession",
+    [(SRV, "	if !req.CleanSession() {\n		if svc.sess, err = svr.sessMgr.Get(cid); err == nil {\n			resp.SetSessionPresent(true)\n\n			if err := svc.sess.Update(req); err != nil {\n				return err\n			}\n		}\n	}", "	if svc.sess, err = svr.sessMgr.Get(cid); err == nil && !req.CleanSession() {\n		resp.SetSessionPresent(true)\n\n		if err := svc.sess.Update(req); err != nil {\n			return err\n		}\n	}")],
+    ["C10/P8-guard-contract/getSession:clean(CleanSession=1):never(keeps-what-Manager.Get-returned)"])
+pos("C05", "session-del-under-read-lock", "MemProvider.Del deletes under the read lock",
+    [("sessions/memprovider.go", "func (mp *MemProvider) Del(id string) {\n	mp.mu.Lock()\n	defer mp.mu.Unlock()", "func (mp *MemProvider) Del(id string) {\n	mp.mu.RLock()\n	defer mp.mu.RUnlock()")],
+    ["C05/G1-guarded-by/MemProvider.Del:map-update#2-under-exclusive-lock"])
+pos("C20", "client-on-shared-provider", "the client takes its callback tree from the default provider",
+    [(CLI, "	p := topics.NewMemProvider()\n	topics.Register(cln.svc.sess.ID(), p)\n\n	cln.svc.topicsMgr, err = topics.NewManager(cln.svc.sess.ID())", "	cln.svc.topicsMgr, err = topics.NewManager(DefaultTopicsProvider)", 1, 2)],
+    ["C20/T16-provider-wiring/(*service.Client).Connect:topics.NewManager:own-fresh-provider"])
+
+
 def main():
     os.makedirs(OUT, exist_ok=True)
     for prop, cs in sorted(C.items()):
